@@ -217,8 +217,9 @@ func settledLexerGoroutines() int {
 
 // ---------- generators ----------
 
-var fieldNames = []string{"a", "b", "foo", "Bar_9", "z0", "x_y", "COUNTRY", "q"}
-var hostileValues = []string{"", "x", "bar", "\"", "\"\"", "a\"b", "\"a", "a\"", "a\nb", "ü✓", "\xff\xfe", "a & b", "( x )", "$1", ";", "a,b", "^", "=", "\t ", "\"\"\"", "'", "\\", "a\\\"b", "\x00", "日本", "%", "100%", "%s", "%d%%", "50% off", "\uFFFD", "a\uFFFDb", "%!v(MISSING)"}
+var fieldNames = []string{"a", "b", "foo", "Bar_9", "z0", "x_y", "COUNTRY", "q", "and", "or", "not", "AND", "Or", "nothing", "order"}
+var hostileValues = []string{"", "x", "bar", "\"", "\"\"", "a\"b", "\"a", "a\"", "a\nb", "ü✓", "\xff\xfe", "a & b", "( x )", "$1", ";", "a,b", "^", "=", "\t ", "\"\"\"", "'", "\\", "a\\\"b", "\x00", "日本", "%", "100%", "%s", "%d%%", "50% off", "\uFFFD", "a\uFFFDb", "%!v(MISSING)",
+	"cafe\u0301", "\u2126", "\u212b", "\u1100\u1161\u11a8", "q\u0307\u0323", "\ufb01", "\u00e9"} // incl. text that is valid UTF-8 but not NFC-normalised
 
 func genPT(r *Rng, depth int, allowPh bool) *PT {
 	if depth <= 0 || r.Chance(1, 3) {
